@@ -86,6 +86,23 @@ fn query_for(case: &J) -> String {
         _ => QUERY.to_string(),
     }
 }
+/// second derive-built schema: NO type carries a visibility predicate, only a field and an argument do, so the
+/// set of visible types depends on the request although no type-level predicate exists
+#[derive(SimpleObject, Clone)]
+struct Level { n: i32 }
+#[derive(SimpleObject, Clone)]
+struct Vault { level: Level, code: i32 }
+#[derive(InputObject)]
+struct Key { k: i32 }
+struct Query2;
+#[Object]
+impl Query2 {
+    async fn open(&self) -> i32 { 0 }
+    #[graphql(visible = "vis_a")]
+    async fn vault(&self) -> Option<Vault> { None }
+    async fn find(&self, #[graphql(visible = "vis_b")] key: Option<Key>) -> i32 { let _ = key; 0 }
+}
+
 const QUERY: &str = r#"query I { __schema { queryType { name } mutationType { name } subscriptionType { name }
   types { ...T } } }
 fragment T on __Type { kind name
@@ -144,10 +161,26 @@ fn main() {
     let cases = read_ndjson(&args[1]);
     let mut out = NdWriter::create(&args[2]);
     let static_schema = Schema::build(Query, Mutation, EmptySubscription).finish();
+    let static2_schema = Schema::build(Query2, EmptyMutation, EmptySubscription).finish();
     for mut case in cases {
         let flavour = case["flavour"].as_str().unwrap_or("static").to_string();
         let res: Result<(J, J, J), String> = vh::exec::catch(|| {
-            if flavour == "static" {
+            if flavour == "static2" {
+                let f = &case["flags"];
+                let mk = || Flags(f[0].as_bool().unwrap_or(true), f[1].as_bool().unwrap_or(true), f[2].as_bool().unwrap_or(true));
+                let r = futures_executor::block_on(static2_schema.execute(Request::new(query_for(&case)).data(mk())));
+                let data = r.data.clone().into_json().unwrap_or(J::Null);
+                let mut by_name = Vec::new();
+                for t in data["__schema"]["types"].as_array().cloned().unwrap_or_default() {
+                    let n = t["name"].as_str().unwrap_or("").to_string();
+                    let q = format!("{{ __type(name: \"{n}\") {{ kind name fields(includeDeprecated: true) {{ name }} enumValues(includeDeprecated: true) {{ name }} inputFields {{ name }} possibleTypes {{ name }} }} }}");
+                    let r2 = futures_executor::block_on(static2_schema.execute(Request::new(q).data(mk())));
+                    let d2 = r2.data.into_json().unwrap_or(J::Null);
+                    by_name.push(json!({"name": n, "kind": d2["__type"]["kind"].as_str().unwrap_or(""), "fields": names(&d2["__type"]["fields"]),
+                        "enumValues": names(&d2["__type"]["enumValues"]), "inputFields": names(&d2["__type"]["inputFields"]), "possibleTypes": names(&d2["__type"]["possibleTypes"])}));
+                }
+                (json!({"dump": dump(&data), "errors": r.errors.len()}), json!(by_name), sdl_names(&static2_schema.sdl()))
+            } else if flavour == "static" {
                 let f = &case["flags"];
                 let flags = Flags(f[0].as_bool().unwrap_or(true), f[1].as_bool().unwrap_or(true), f[2].as_bool().unwrap_or(true));
                 let r = futures_executor::block_on(static_schema.execute(Request::new(query_for(&case)).data(flags)));
